@@ -35,4 +35,10 @@ def run(tier, workers=None):
         n = e1common.cross_history_etag(rep, "C02", obs)
         return {"distinct_etags_observed": n}
 
-    return e1common.run_configs("C02", tier, configs(tier), depth_of, workers=workers, assumptions=ASSUME, post=post)
+    faults = {
+        "histories": [[("put", "cal", "a.ics", "X")], [("put", "cal", "a.ics", "X"), ("put", "cal", "a.ics", "X2")]],
+        "ops": [("put", "cal", "a.ics", "X2"), ("put", "cal", "a.ics", "Z"), ("delete", "cal", "a.ics")],
+    }
+    return e1common.run_configs("C02", tier, configs(tier), depth_of, workers=workers, assumptions=ASSUME + [
+        "fault phase: every single placement of an ENOSPC failure on a mutating file-system call of a replace / delete; afterwards all views must still agree and ETag <-> bytes must still be a bijection",
+    ], post=post, faults=faults)
